@@ -573,7 +573,14 @@ func (a *A) ruleLatePolicy(W *types.Named, add *ssa.Function) {
 	}
 	isTsOk := func(v ssa.Value) bool { return v == tsOk }
 	for _, c := range callsTo(add, upd) {
-		a.Check(guardedByValue(c.Block(), isTsOk, true), fname(add)+"#ts-gate", c.Pos(),
+		c := c
+		reach := reachOnSomePath(add, c, func(v ssa.Value) Tri {
+			if v == tsOk {
+				return F
+			}
+			return U
+		})
+		a.Check(!reach, fname(add)+"#ts-gate", c.Pos(),
 			"UpdateEventTime is reached only when the row carried a usable timestamp",
 			"UpdateEventTime can be reached for a row without a usable timestamp: an unplaceable row would move the watermark")
 	}
@@ -1186,4 +1193,127 @@ func (a *A) isMoveBackForAcceptedRow(fn *ssa.Function, st *ssa.Store, W *types.N
 		return false
 	}
 	return true
+}
+
+// ruleClockReadUnderLock: in processing time the row's timestamp is the wall clock, and the interval
+// that is current when the row is placed is advanced by the timer goroutine under the window lock. The
+// clock must therefore be read while the lock is held: a value read before Lock() can belong to an
+// interval that a Trigger() running in between has already delivered — the row is buffered behind the
+// fired interval and never appears in any result. Every time.Now() in W.Add is executed with W.mu held
+// exclusively.
+func (a *A) ruleClockReadUnderLock(W *types.Named) int {
+	add := a.methodOf(W, "Add")
+	if add == nil {
+		a.anchorFail("%s.Add not found", W.Obj().Name())
+	}
+	L := a.Locks()
+	n := 0
+	key := lockKey{ownerName(types.NewPointer(W)), "mu"}
+	allInstrs(add, func(in ssa.Instruction) {
+		c, ok := in.(*ssa.Call)
+		if !ok {
+			return
+		}
+		sc := c.Call.StaticCallee()
+		if sc == nil || sc.Pkg == nil || sc.Pkg.Pkg.Path() != "time" || sc.Name() != "Now" {
+			return
+		}
+		n++
+		held := L.Held(in)
+		a.Check(held[key] == 'W', fmt.Sprintf("%s#clock-read-under-lock", fname(add)), c.Pos(),
+			"the wall clock that stamps the row is read while "+key.String()+" is held",
+			"the wall clock is read without "+key.String()+" held (held: "+held.String()+"): a Trigger() between this read and the lock delivers the interval the timestamp belongs to, and the row is lost")
+	})
+	return n
+}
+
+// ruleRowEvictionIgnoresLateness: the lateness allowance decides *when* a fired window stops
+// accepting late rows (watermark >= end + allowance); which rows belong to it is decided by the
+// interval alone. A comparison of a buffered row's timestamp with a time derived from the allowance
+// (triggeredWindowInfo.closeTime, config.AllowedLateness) mixes the two: rows of the next, not yet
+// fired window that lie within the allowance of the expired one are treated as its rows (and deleted
+// with it). In the methods of W no comparison has a types.Row.Timestamp on one side and such a time
+// on the other.
+func (a *A) ruleRowEvictionIgnoresLateness(W *types.Named) int {
+	rowTs := a.FieldOf(a.Named("types", "Row"), "Timestamp")
+	lateCfg := a.FieldOf(a.Named("types", "WindowConfig"), "AllowedLateness")
+	isField := func(v ssa.Value, f *types.Var) bool {
+		switch x := v.(type) {
+		case *ssa.FieldAddr:
+			st := derefStruct(x.X.Type())
+			return st != nil && st.Field(x.Field) == f
+		case *ssa.Field:
+			st, ok := x.X.Type().Underlying().(*types.Struct)
+			return ok && st.Field(x.Field) == f
+		}
+		return false
+	}
+	isCloseTime := func(v ssa.Value) bool {
+		var st *types.Struct
+		var idx int
+		switch x := v.(type) {
+		case *ssa.FieldAddr:
+			st, idx = derefStruct(x.X.Type()), x.Field
+		case *ssa.Field:
+			st, _ = x.X.Type().Underlying().(*types.Struct)
+			idx = x.Field
+		}
+		return st != nil && st.Field(idx).Name() == "closeTime" && st.Field(idx).Pkg() == W.Obj().Pkg()
+	}
+	n := 0
+	for _, fn := range a.ModFuncs {
+		if fn.Blocks == nil {
+			continue
+		}
+		root := fn
+		for root.Parent() != nil {
+			root = root.Parent()
+		}
+		if r := root.Signature.Recv(); r == nil || !types.Identical(derefT(r.Type()), W) {
+			continue
+		}
+		allInstrs(fn, func(in ssa.Instruction) {
+			c, ok := in.(*ssa.Call)
+			if !ok || len(c.Call.Args) != 2 {
+				return
+			}
+			switch timeMethod(&c.Call) {
+			case "Before", "After", "Equal", "Compare":
+			default:
+				// slot.Contains(ts)
+				if sc := c.Call.StaticCallee(); sc == nil || sc.Name() != "Contains" || sc.Signature.Recv() == nil || !isNamedType(sc.Signature.Recv().Type(), modPath+"/types", "TimeSlot") {
+					return
+				}
+			}
+			side := func(v ssa.Value) (row, late bool) {
+				for x := range sliceThroughLocals(v, fn, 8) {
+					if isField(x, rowTs) {
+						row = true
+					}
+					if isField(x, lateCfg) || isCloseTime(x) {
+						late = true
+					}
+				}
+				return
+			}
+			r0, l0 := side(c.Call.Args[0])
+			r1, l1 := side(c.Call.Args[1])
+			if !r0 && !r1 {
+				return
+			}
+			n++
+			bad := (r0 && l1) || (r1 && l0)
+			a.Check(!bad, fmt.Sprintf("%s#row-vs-allowance", fname(fn)), c.Pos(),
+				"the buffered row's timestamp is compared with interval bounds only",
+				"a buffered row's timestamp is compared with a time derived from the lateness allowance (closeTime / AllowedLateness): rows of the next window that lie within the allowance of an expired window are treated as belonging to it")
+		})
+	}
+	return n
+}
+
+func derefT(t types.Type) types.Type {
+	if p, ok := types.Unalias(t).(*types.Pointer); ok {
+		return types.Unalias(p.Elem())
+	}
+	return types.Unalias(t)
 }
